@@ -178,6 +178,11 @@ func cmdCheck(args []string) {
 				stale = append(stale, fr)
 				continue
 			}
+			if g.Arch != "" && g.Arch != "amd64" {
+				for _, o := range rep.Obligs {
+					o.Name = g.Arch + ":" + o.Name
+				}
+			}
 			results = append(results, fr)
 			allObs = append(allObs, rep.Obligs...)
 			groupObs = append(groupObs, rep.Obligs...)
@@ -202,12 +207,24 @@ func cmdCheck(args []string) {
 	}
 	replayCache := map[string][]string{}
 	runReplay := func(fn string, n int) []string {
+		if i := strings.Index(fn, "@"); i >= 0 {
+			// a function of another architecture's build: only an explicitly configured replay can run here
+			if _, ok := pc.ReplayCases[fn]; !ok {
+				return nil
+			}
+		}
 		pkg, cs := replayTarget(pc, fn)
 		if pkg == "" {
 			return nil
 		}
 		if c, ok := pc.ReplayCases[fn]; ok {
 			cs = c
+		}
+		// "@<replay target>:<cases>" selects another replay harness (e.g. the extracted arm64 glue)
+		if strings.HasPrefix(cs, "@") {
+			if i := strings.Index(cs, ":"); i > 0 {
+				pkg, cs = cs[1:i], cs[i+1:]
+			}
 		}
 		key := pkg + "|" + cs
 		if r, ok := replayCache[key]; ok {
@@ -252,7 +269,11 @@ func cmdCheck(args []string) {
 				continue
 			}
 			wasProved := baseline[baseName(o.Name)]
-			fails := runReplay(o.Func, 400)
+			rfn := o.Func
+			if fr.arch != "" && fr.arch != "amd64" {
+				rfn += "@" + fr.arch
+			}
+			fails := runReplay(rfn, 400)
 			rec := map[string]interface{}{
 				"property": id, "obligation": o.Name, "position": o.Pos, "verdict": o.Res.Verdict.String(),
 				"solver": o.Res.Solver, "solver_detail": o.Res.Detail, "model": truncate(o.Res.Model, 20000),
@@ -279,7 +300,11 @@ func cmdCheck(args []string) {
 	for _, fr := range stale {
 		lines = append(lines, fmt.Sprintf("STALE-CONTRACT: %s (%s): %s", fr.rep.Key, fr.rep.Status, fr.rep.Reason))
 		level = "exploration"
-		fails := runReplay(fr.rep.Key, 400)
+		rk := fr.rep.Key
+		if fr.arch != "" && fr.arch != "amd64" {
+			rk += "@" + fr.arch
+		}
+		fails := runReplay(rk, 400)
 		if len(fails) > 0 {
 			p := writeReplay(map[string]interface{}{"property": id, "function": fr.rep.Key, "stale_contract": fr.rep.Reason, "replay_failures": fails})
 			lines = append(lines, fmt.Sprintf("VIOLATION property=%s replay=%s function=%s input: %s", id, p, fr.rep.Key, truncate(fails[0], 300)))
